@@ -277,10 +277,55 @@ class Spec:
         return False
 
     def match_case(self, subject, pattern, st: State, depth: int):
-        """True/False/None for ``match subject: case pattern``."""
+        """True/False/None for ``match subject: case pattern``.  Patterns with an equivalent boolean expression (class patterns without
+        sub-patterns = isinstance, value / singleton patterns = ==/is, or-patterns, ``as`` bindings) are decided exactly like that expression,
+        so an ``if isinstance(..)/elif`` chain and its ``match`` rewrite are analysed alike."""
         if isinstance(pattern, ast.MatchAs) and pattern.pattern is None:
             return True
+        cond = pattern_to_cond(subject, pattern)
+        if cond is not None:
+            return self.decide(cond, st, depth)
         return None
+
+
+def pattern_to_cond(subject, pattern):
+    """Boolean expression (synthesised AST, located at the pattern) equivalent to ``match subject: case pattern`` or None."""
+
+    def at(node):
+        ast.copy_location(node, pattern)
+        for n in ast.walk(node):
+            if not hasattr(n, "lineno"):
+                ast.copy_location(n, pattern)
+        return node
+
+    if isinstance(pattern, ast.MatchAs):
+        return pattern_to_cond(subject, pattern.pattern) if pattern.pattern is not None else at(ast.Constant(value=True))
+    def irrefutable(p):
+        return isinstance(p, ast.MatchAs) and p.pattern is None  # a capture or the wildcard
+
+    if isinstance(pattern, ast.MatchClass) and all(irrefutable(p) for p in list(pattern.patterns) + list(pattern.kwd_patterns)):
+        # sub-patterns that only capture attributes do not restrict the match (the attribute exists on instances of the class)
+        return at(ast.Call(func=ast.Name(id="isinstance", ctx=ast.Load()), args=[subject, pattern.cls], keywords=[]))
+    if isinstance(pattern, ast.MatchValue):
+        return at(ast.Compare(left=subject, ops=[ast.Eq()], comparators=[pattern.value]))
+    if isinstance(pattern, ast.MatchSingleton):
+        return at(ast.Compare(left=subject, ops=[ast.Is()], comparators=[ast.Constant(value=pattern.value)]))
+    if isinstance(pattern, ast.MatchOr):
+        parts = [pattern_to_cond(subject, p) for p in pattern.patterns]
+        if any(x is None for x in parts):
+            return None
+        return at(ast.BoolOp(op=ast.Or(), values=parts))
+    return None
+
+
+def class_names(typeexpr) -> list[str]:
+    """Last attribute names of the classes in the second argument of isinstance(): a class, a tuple of classes or a ``A | B`` union."""
+    if isinstance(typeexpr, ast.Tuple):
+        return [n for e in typeexpr.elts for n in class_names(e)]
+    if isinstance(typeexpr, ast.BinOp) and isinstance(typeexpr.op, ast.BitOr):
+        return class_names(typeexpr.left) + class_names(typeexpr.right)
+    n = last_attr(typeexpr)
+    return [n] if n else []
 
 
 class Engine:
@@ -746,6 +791,11 @@ class Engine:
                         self.forks += 1
                         take.add(s)
                         rest.add(s)
+            if sp.record_conds:
+                cexpr = pattern_to_cond(node.subject, case.pattern)
+                if cexpr is not None and not (isinstance(cexpr, ast.Constant)):
+                    take = {self._cev(cexpr, True, s) for s in take}
+                    rest = {self._cev(cexpr, False, s) for s in rest}
             mev = getattr(sp, "case_event", None)
             if mev:
                 take = {s.emit(mev(node, case, s)) if mev(node, case, s) is not None else s for s in take}
